@@ -35,6 +35,7 @@ pub struct Profile {
     pub w_recaps: u64,
     pub w_header: u64,
     pub w_swap: u64,
+    pub w_born: u64,
     pub w_roundtrip: u64,
     pub w_mpk: u64,
     pub w_save: u64,
@@ -67,6 +68,7 @@ pub fn profile(name: &str) -> Profile {
         w_recaps: 3,
         w_header: 2,
         w_swap: 1,
+        w_born: 1,
         w_roundtrip: 3,
         w_mpk: 1,
         w_save: 0,
@@ -92,6 +94,7 @@ pub fn profile(name: &str) -> Profile {
             w_recaps: 0,
             w_header: 1,
             w_swap: 0,
+            w_born: 0,
             w_roundtrip: 0,
             w_mpk: 0,
             w_invalid: 0,
@@ -134,7 +137,7 @@ pub fn profile(name: &str) -> Profile {
         },
         "revocation" => Profile {
             name: "revocation",
-            w_add_attr: 1,
+            w_add_attr: 3,
             w_rename: 0,
             w_disable: 0,
             w_add_dim: 0,
@@ -456,6 +459,7 @@ impl Driver {
             ("recaps", p.w_recaps),
             ("header", p.w_header),
             ("swap_attr", p.w_swap),
+            ("born_disabled", p.w_born),
             ("roundtrip", p.w_roundtrip),
             ("mpk", p.w_mpk),
             ("save_msk", p.w_save),
@@ -616,6 +620,34 @@ impl Driver {
                         }
                         None => continue,
                     }
+                }
+                "born_disabled" => {
+                    // a batch of edits containing a right that is born disabled: the update must fail and
+                    // leave the master key untouched, whatever else the batch adds or removes
+                    let d = match rng.pick(&st) {
+                        Some(x) => x.0.clone(),
+                        None => continue,
+                    };
+                    let n = self.fresh_name();
+                    self.step(&json!({"op": "add_attr", "d": d, "n": n, "hint": rng.chance(p.hyb, 10)}));
+                    self.step(&json!({"op": "disable", "d": d, "n": n}));
+                    for _ in 0..rng.below(3) {
+                        let cands: Vec<(String, String)> = self
+                            .world
+                            .structure()
+                            .iter()
+                            .flat_map(|x| x.2.iter().map(move |a| (x.0.clone(), a.0.clone())))
+                            .filter(|(_, a)| *a != n)
+                            .collect();
+                        if let Some((dd, a)) = rng.pick(&cands) {
+                            self.step(&json!({"op": "del_attr", "d": dd, "n": a}));
+                        }
+                    }
+                    self.step(&json!({"op": "update"}));
+                    if rng.chance(2, 3) {
+                        self.step(&json!({"op": "del_attr", "d": d, "n": n}));
+                    }
+                    json!({"op": "update"})
                 }
                 "header" => {
                     let k = if rng.chance(2, 3) { nmpk } else { 1 + rng.below(nmpk) };
